@@ -39,6 +39,19 @@ def nonpure(events):
     return False
 
 
+def canon_early(line):
+    """Early return (non-finite Lipschitz estimate, no callback): the library's Stats carry the default
+    ε = +inf, the PANOC / ZeroFPR models leave ε unspecified — compare everything but that token (the
+    monitors check the real value)."""
+    if ' ; CB ' in line or not line.startswith('S ') or line.startswith('S exception'):
+        return line
+    secs = line.split(' ; ')
+    t = secs[0].split()
+    if len(t) > 3:
+        t[3] = '*'
+    return ' ; '.join([' '.join(t)] + secs[1:])
+
+
 class Panoc:
     name = 'panoc'
     driver = 'drv_loop'
@@ -76,11 +89,12 @@ class Panoc:
             res['first'].append(f'driver rc={rc} lines={len(dout)}/{len(ops)}: {err[-300:]}')
             return res
         for i, (o, h, d) in enumerate(zip(ops, hout, dout)):
-            hs = S.strip_events(h)
-            if hs != d.strip() and S.Op.parse(o).nat('nanat') and nonpure(S.parse_out(h)['events']):
+            hs = canon_early(S.strip_events(h))
+            d = canon_early(d.strip())
+            if hs != d and S.Op.parse(o).nat('nanat') and nonpure(S.parse_out(h)['events']):
                 res['skipped'] += 1
                 continue
-            if hs != d.strip():
+            if hs != d:
                 res['bad'] += 1
                 if len(res['first']) < 3:
                     a, b = hs.split(' ; '), d.strip().split(' ; ')
@@ -144,8 +158,9 @@ class ModSolver:
             if d.startswith('ORACLE-NOT-A-FUNCTION'):
                 res['skipped'] += 1
                 continue
-            hs = strip(h)
-            if hs == d.strip():
+            hs = canon_early(strip(h))
+            d = canon_early(d.strip())
+            if hs == d:
                 continue
             evs = [sec.split()[1:] for sec in h.split(' ; ') if sec.strip().startswith('EV ')]
             if S.Op.parse(o).nat('nanat') and nonpure(evs):
